@@ -41,6 +41,7 @@ pub fn errno_name(e: i32) -> &'static str {
         5 => "EIO",
         9 => "EBADF",
         13 => "EACCES",
+        18 => "EXDEV",
         20 => "ENOTDIR",
         21 => "EISDIR",
         24 => "EMFILE",
@@ -84,7 +85,10 @@ impl CliRun {
     /// true if a fault on writing/closing the output file itself fired
     pub fn output_write_fault_fired(&self) -> bool {
         self.trace.iter().any(|l| {
-            l.contains("!inj") && (l.contains(" write output") || l.contains(" writev output") || l.contains(" close output"))
+            l.contains("!inj")
+                && [" write output", " writev output", " close output", " write outtmp", " writev outtmp", " close outtmp", " open outtmp", " rename output", " rename outtmp", " fsync output", " fsync outtmp", " ftruncate output", " ftruncate outtmp"]
+                    .iter()
+                    .any(|p| l.contains(p))
         })
     }
     pub fn count(&self, sym: &str, cls: &str) -> usize {
